@@ -39,6 +39,29 @@ theorem C03_pruning_exact (g : Grid α) (h : g.NonNeg) (ub : α) (chk chk' : Boo
     distModel g ub none chk = distModel g ⊤ none chk' := by
   rw [distModel_eq_of_le g h ub chk hub, distModel_eq_of_le g h ⊤ chk' le_top]
 
+/-- `max_dist` **and** `use_pruning` together: whenever the kernel's threshold `mK` is a valid upper
+bound (the Euclidean distance, C09) the user's threshold `mF` still decides — the result is the
+unbounded distance when that is `≤ mF` and infinity otherwise. Covers the C engine (`mK = ub`,
+`mF = max_dist`) and the Python engine (`mK = mF = min(max_dist, ub)`, see `C03_both_python`). -/
+theorem C03_both (g : Grid α) (h : g.NonNeg) (mK mF : α) (hub : dtwSpec g ≤ mK) (hm : ¬ mF ≤ 0) :
+    distModelBoth g mK mF none = if dtwSpec g ≤ mF then dtwSpec g else ⊤ := by
+  have hk : endMin g (matP g mK g.r) = dtwSpec g := by
+    have := distModel_eq_of_le g h mK false hub
+    simpa [distModel] using this
+  simp only [distModelBoth, hk, finalCheck]
+  by_cases hle : dtwSpec g ≤ mF
+  · simp [hle]
+  · simp [hle, hm, top]
+
+theorem C03_both_python (g : Grid α) (h : g.NonNeg) (ub mF : α) (hub : dtwSpec g ≤ ub) (hm : ¬ mF ≤ 0)
+    (hub0 : ¬ ub ≤ 0) :
+    distModel g (min mF ub) none true = if dtwSpec g ≤ mF then dtwSpec g else ⊤ := by
+  by_cases hle : dtwSpec g ≤ mF
+  · rw [if_pos hle]; exact C03_below g h _ true (le_min hle hub)
+  · rw [if_neg hle]
+    exact C03_above g h _ (fun h0 => by rcases min_le_iff.mp h0 with h1 | h1 <;> contradiction)
+      (fun h0 => hle (h0.trans (min_le_left _ _)))
+
 theorem C03_at_driver_domain (g : Grid Cost) (h : g.NonNeg) (m : Nat) (hm : 0 < m) :
     distModel g (.fin m) none true = dtwSpec g ∨ distModel g (.fin m) none true = Cost.inf :=
   C03_never_other g h (.fin m) (by simp [Cost.le_def, Cost.le]; omega)
